@@ -53,6 +53,71 @@ def _quote_alternatives(pat: str) -> Optional[List[object]]:
     return [dump(a) for a in items[0][1][1]]
 
 
+def _escape_ambiguities(pat: str) -> Optional[Tuple[int, List[str]]]:
+    """(number of branches that have the escape alternative `\\.`, descriptions of sibling alternatives that can also start with a backslash)."""
+    try:
+        import re._parser as sp          # type: ignore[import-not-found]
+        import re._constants as sc       # type: ignore[import-not-found]
+    except ImportError:  # pragma: no cover
+        import sre_parse as sp           # type: ignore[no-redef]
+        import sre_constants as sc       # type: ignore[no-redef]
+    try:
+        parsed = sp.parse(pat)
+    except Exception:
+        return None
+    BS = 92
+    n_br = 0
+    bad: List[str] = []
+
+    def first_accepts_bs(alt: object) -> bool:
+        items = list(alt)      # type: ignore[call-overload]
+        if not items:
+            return False
+        op, av = items[0]
+        if op == sc.LITERAL:
+            return av == BS               # (the escape alternative itself is recognised separately, by is_escape)
+        if op == sc.NOT_LITERAL:
+            return av != BS
+        if op == sc.ANY:
+            return True
+        if op == sc.IN:
+            neg = any(o == sc.NEGATE for o, _ in av)
+            hit = any((o == sc.LITERAL and a == BS) or (o == sc.RANGE and a[0] <= BS <= a[1]) or (o == sc.CATEGORY and 'NOT' in str(a)) for o, a in av if o != sc.NEGATE)
+            return (not hit) if neg else hit
+        if op == sc.SUBPATTERN:
+            return first_accepts_bs(av[3])
+        if op == sc.BRANCH:
+            return any(first_accepts_bs(a) for a in av[1])
+        if op in (sc.MAX_REPEAT, sc.MIN_REPEAT):
+            return first_accepts_bs(av[2])
+        return False
+
+    def is_escape(alt: object) -> bool:
+        items = list(alt)      # type: ignore[call-overload]
+        return len(items) == 2 and items[0] == (sc.LITERAL, BS) and items[1][0] == sc.ANY
+
+    def walk(sub: object) -> None:
+        nonlocal n_br
+        for op, av in list(sub):      # type: ignore[call-overload]
+            if op == sc.BRANCH:
+                alts = av[1]
+                if any(is_escape(a) for a in alts):
+                    n_br += 1
+                    for a in alts:
+                        if not is_escape(a) and first_accepts_bs(a):
+                            bad.append(''.join(str(x) for x in list(a))[:60])
+                for a in alts:
+                    walk(a)
+            elif op == sc.SUBPATTERN:
+                walk(av[3])
+            elif op in (sc.MAX_REPEAT, sc.MIN_REPEAT):
+                walk(av[2])
+            elif op in (sc.ASSERT, sc.ASSERT_NOT):
+                walk(av[1])
+    walk(parsed)
+    return n_br, bad
+
+
 def run(repo: Repo, chk: Check, thorough: bool = False) -> None:
     chk.explanation = ('who-may-call census of the config parsers and of Options construction; path rule on ValidatorParser.parse; set '
                        'comparison of the add_argument dest names with the attrs fields of Options; sibling comparison of the TOML and INI '
@@ -247,6 +312,7 @@ def run(repo: Repo, chk: Check, thorough: bool = False) -> None:
             for c in calls_in(us) if call_name(c) == 'literal_eval')
     # the double-quote and single-quote alternatives of the quoting regexes are siblings: same grammar, only the quote character differs
     n_rx = 0
+    n_esc = 0
     cpm = repo.mod(CP)
     for nm_, v in sorted(cpm.assigns.items()):
         if not (isinstance(v, ast.Call) and call_name(v) == 'compile' and v.args):
@@ -266,6 +332,21 @@ def run(repo: Repo, chk: Check, thorough: bool = False) -> None:
                'the two alternatives are equal up to the quote character' if same else
                'the alternatives for "..." and \'...\' differ in more than the quote character: a value that is recognised (and unquoted) with one kind of '
                'quotes is passed on raw, quotes included, with the other', f'{cpm.relpath}:{v.lineno}')
+        # where a branch has the escape alternative `\\.` (a backslash and the character it protects), no sibling alternative may match a backslash
+        # itself: otherwise the regex can also read the backslash as an ordinary character and the quote after it as the END of the string
+        # (by backtracking) - `"C:\docs\"` is then classified as quoted, although its last quote is escaped, and evaluating it fails
+        amb = _escape_ambiguities(pat)
+        if amb is None:
+            raise AnalysisError(f'R20.5: cannot parse the regex {nm_}')
+        if amb[0]:
+            n_esc += 1
+            chk.ob('R20.5', f'{CP}.{nm_} :: a backslash can only be read as the start of an escape', not amb[1],
+                   f'{amb[0]} branch(es) with an escape alternative; no sibling alternative accepts a backslash' if not amb[1] else
+                   f'next to the escape alternative `\\\\.` the alternative `{amb[1][0]}` also accepts a backslash: a value whose closing quote is escaped (`"C:\\docs\\"`, '
+                   '`\'a\\\'`) is taken for a quoted string and handed to literal_eval, which rejects it - the run aborts where the command line takes the text as written',
+                   f'{cpm.relpath}:{v.lineno}')
+    if n_esc < 2:
+        raise AnalysisError(f'R20.5: {n_esc} quoting regexes with an escape alternative found (2 confirmed)')
     if n_rx < 2:
         raise AnalysisError(f'R20.5: {n_rx} two-quote regexes found in _configparser (_QUOTED_STR_REGEX, _TRIPLE_QUOTED_STR_REGEX confirmed)')
     # configparser's default BasicInterpolation gives `%` a meaning (`%(key)s`, `%%`): a value with a percent sign - any percent-encoded URL -
